@@ -326,6 +326,13 @@ func features(ns *models.Namespace) []string {
 		}
 	}
 	for i, r := range ns.ShardRules {
+		if r.Type == models.ShardLinked {
+			for j := i + 1; j < len(ns.ShardRules); j++ {
+				if o := ns.ShardRules[j]; o.DB == r.DB && strings.EqualFold(o.Table, r.ParentTable) {
+					set["feat_child_before_parent"] = true
+				}
+			}
+		}
 		for _, l := range r.Locations {
 			if l == 0 {
 				set["feat_location_zero"] = true
@@ -633,6 +640,6 @@ func checkCase(c c10Case) (o pbt.Outcome) {
 
 func TestC10Configs(t *testing.T) {
 	pbt.Run(t, pbt.Spec{ID: "C10", Sub: "configs", Quick: 5000, Thorough: 30000,
-		Rule:  "namespace configurations built valid field by field (1-4 slices, users, 0-5 rules of all 12 types + linked, database lists with prefix[a-b] ranges, calendar ranges incl. reversed spans and year ends, partition parameters) and, for half of them, 1-3 realistic edits (zero/negative/mismatched locations, case variants of table and parent names, bad database lists, database lists whose entries are equal as written or only after expansion - range+name, overlapping ranges, differently spelled ranges -, overlapping dates, consecutive calendar ranges that share exactly their boundary period, wrong partition sums, ...); non-trivial = accepted by Verify, >= 1 shard rule and >= 1 unusual feature (zero/negative location, upper-case or case-variant name, range syntax, reversed span, empty default slice, padded slice name)",
+		Rule:  "namespace configurations built valid field by field (list entries in permuted order: linked children before their parents, databases interleaved; 1-4 slices, users, 0-5 rules of all 12 types + linked, database lists with prefix[a-b] ranges, calendar ranges incl. reversed spans and year ends, partition parameters) and, for half of them, 1-3 realistic edits (zero/negative/mismatched locations, case variants of table and parent names, bad database lists, database lists whose entries are equal as written or only after expansion - range+name, overlapping ranges, differently spelled ranges -, overlapping dates, consecutive calendar ranges that share exactly their boundary period, wrong partition sums, ...); non-trivial = accepted by Verify, >= 1 shard rule and >= 1 unusual feature (zero/negative location, upper-case or case-variant name, range syntax, reversed span, empty default slice, padded slice name)",
 		Floor: 0.25}, genCase, checkCase)
 }
